@@ -793,6 +793,8 @@ impl Authentication for AuthenticationBuiltin {
         // Note: We already verified above that hash_c1-recomputed vs. hash_c1-stored
         // match and hash_c2 recomputed vs received (if any) match.
 
+        let dh1_public_key = dh1.public_key_bytes()?;
+
         let cc2_properties: Vec<BinaryProperty> = vec![
           BinaryProperty::with_propagate(
             "hash_c2",
@@ -807,7 +809,9 @@ impl Authentication for AuthenticationBuiltin {
             "challenge1",
             Bytes::copy_from_slice(reply.challenge1.as_ref()),
           ),
-          BinaryProperty::with_propagate("dh1", Bytes::copy_from_slice(reply.dh1.as_ref())),
+          // DH1 as *we* sent it, not as echoed in the reply: the signature must cover
+          // the key that we are going to use in the key agreement.
+          BinaryProperty::with_propagate("dh1", dh1_public_key.clone()),
           BinaryProperty::with_propagate("hash_c1", Bytes::copy_from_slice(hash_c1.as_ref())),
         ];
 
@@ -831,8 +835,6 @@ impl Authentication for AuthenticationBuiltin {
              HandshakeReplyMessageToken. Expected {expected_kagree_algo}"
           ));
         }
-
-        let dh1_public_key = dh1.public_key_bytes()?;
 
         // Create signature for final message:
         // Sign( Hash(C1) | Challenge1 | DH1 | Challenge2 | DH2 | Hash(C2) ), see Table
